@@ -52,7 +52,7 @@ let need st w c = if not c then out st w
 let kind st k = if not (List.mem k st.kinds) then st.kinds <- k :: st.kinds
 (* classes whose defect has been repaired in /repo (fixed: entries of known_findings.txt) are no longer classes:
    a recurrence must be reported, and they must not shadow another class of the same case *)
-let repaired_classes = ["reif_len_mismatch"; "memory_dummy_varid"; "table_arity"; "len_mismatch_iter"]
+let repaired_classes = ["reif_len_mismatch"; "memory_dummy_varid"; "table_arity"; "len_mismatch_iter"; "element_nd_index"; "table_nd_arity"]
 let cls st k = if not (List.mem k repaired_classes) && not (List.mem k st.classes) then st.classes <- st.classes @ [k]
 
 let vix t = int_of_string (String.sub t 1 (String.length t - 1))
@@ -146,10 +146,21 @@ let reads st (ops : string list) =
   if vs <> [] && st.created = 0 then cls st "memory_dummy_varid";
   if List.exists (fun t -> (var st (vix t)).dom = Some []) vs then cls st "empty_domain_read"
 
+(* matrix / cube tokens of element2d / element3d / table2d / table3d (grammar of harness/src/api.rs) *)
+let parse_mat tok = if tok = "-" || tok = "E" then [] else List.map (fun r -> if r = "e" then [] else vlist r) (String.split_on_char '/' tok)
+let parse_cube tok = if tok = "-" then [] else List.map parse_mat (Str.split_delim (Str.regexp_string "//") tok)
+(* is every value of the index variable inside / outside 0 .. n-1 ?  (None: domain not tracked) *)
+let idx_all st v (p : int -> bool) : bool option =
+  let vi = var st v in
+  match vi.dom, vi.iv with
+  | Some d, _ -> Some (List.for_all p d)
+  | None, Some (lo, hi) when hi - lo <= 100000 -> Some (List.for_all p (range lo hi))
+  | _ -> None
+
 let is_entry k = List.mem k ["solve"; "enum"; "enumstats"; "minimize"; "maximize"; "miniter"; "maxiter"; "validate"]
 
 (* one building call; i = its position among the building calls *)
-let spec_call st i (t : string list) =
+let rec spec_call st i (t : string list) =
   let imax = i32max in
   match t with
   | ["int"; lo; hi] -> decl_int st (int_of_string lo) (int_of_string hi)
@@ -158,6 +169,45 @@ let spec_call st i (t : string list) =
     let lo = int_of_string lo and hi = int_of_string hi in
     let lo, hi = if lo < hi then lo, hi else hi, lo in       (* Model::new_vars swaps *)
     for _ = 1 to int_of_string n do decl_int st lo hi done
+  | ["ints2d"; r; c; lo; hi] -> spec_call st i ["ints"; string_of_int (int_of_string r * int_of_string c); lo; hi]
+  | ["ints3d"; d; r; c; lo; hi] -> spec_call st i ["ints"; string_of_int (int_of_string d * int_of_string r * int_of_string c); lo; hi]
+  | ["bools"; n] -> spec_call st i ["ints"; n; "0"; "1"]
+  | ["bools2d"; r; c] -> spec_call st i ["ints2d"; r; c; "0"; "1"]
+  | ["bools3d"; d; r; c] -> spec_call st i ["ints3d"; d; r; c; "0"; "1"]
+  | ["amin"; xs] -> spec_call st i ["min"; xs]                  (* array_int_minimum = self.min *)
+  | ["amax"; xs] -> spec_call st i ["max"; xs]
+  | ["sumiter"; ops] ->
+    let l = if ops = "-" then [] else String.split_on_char ',' ops in
+    if List.for_all (fun t -> not (is_const t)) l then spec_call st i ["sum"; ops]
+    else begin
+      let m = List.fold_left (fun a t -> a +! opmag st t) 0 l in
+      need st "sum_magnitude" (m <= imax);
+      push st { dom = None; mag = m; iv = None } end
+  | ["element2d"; mat; r; c; _] ->
+    let m = parse_mat mat in
+    let cols = match m with [] -> 0 | r0 :: _ -> List.length r0 in
+    let rect = List.for_all (fun row -> List.length row = cols) m in
+    let r = vix r and c = vix c in
+    if cols = 0 then (if List.concat m <> [] then cls st "element_nd_index" else kind st "elem_index_oob")   (* no cell exists *)
+    else begin
+      (* the individual indices are not constrained: a column index outside 0..cols-1 addresses another row *)
+      if not rect || idx_all st c (fun x -> 0 <= x && x < cols) <> Some true then cls st "element_nd_index";
+      if rect && (idx_all st r (fun x -> x < 0 || x >= List.length m) = Some true || idx_all st c (fun x -> x < 0 || x >= cols) = Some true)
+      then kind st "elem_index_oob" end
+  | ["element3d"; cube; d; r; c; _] ->
+    let q = parse_cube cube in
+    let rows = match q with [] -> 0 | m0 :: _ -> List.length m0 in
+    let cols = match q with (r0 :: _) :: _ -> List.length r0 | _ -> 0 in
+    let rect = List.for_all (fun m -> List.length m = rows && List.for_all (fun row -> List.length row = cols) m) q in
+    let d = vix d and r = vix r and c = vix c in
+    if rows = 0 || cols = 0 then (if List.concat (List.concat q) <> [] then cls st "element_nd_index" else kind st "elem_index_oob")
+    else begin
+      if not rect || idx_all st c (fun x -> 0 <= x && x < cols) <> Some true || idx_all st r (fun x -> 0 <= x && x < rows) <> Some true
+      then cls st "element_nd_index";
+      if rect && (idx_all st d (fun x -> x < 0 || x >= List.length q) = Some true || idx_all st r (fun x -> x < 0 || x >= rows) = Some true
+                  || idx_all st c (fun x -> x < 0 || x >= cols) = Some true)
+      then kind st "elem_index_oob" end
+  | ["table2d"; _; _] | ["table3d"; _; _] -> ()      (* since b2362f9 each row goes through Model::table: a tuple of the wrong arity is an InvalidConstraint error from the solving call; nothing is expected here beyond "no panic" *)
   | ["intset"; vs] ->
     let l = List.sort_uniq compare (parse_list vs) in
     st.created <- st.created + 1;          (* Model::intset bypasses the memory accounting *)
@@ -240,7 +290,7 @@ let spec_call st i (t : string list) =
   | ["gcc"; _; vals; cnts] ->
     (* one fixed variable per (value, count) pair is created inside the model, not handed to the program *)
     ignore (vals, cnts)
-  | ["new"; c] -> post_cons st (Mlevel_cmd.parse_cons c)
+  | ["new"; c] -> (match Mlevel_cmd.parse_cons_opt c with Some c -> post_cons st c | None -> ())
   | ["fn"; op; l; r] -> post_cons st (CBin (Mlevel_cmd.parse_expr l, Mlevel_cmd.cmp_of op, Mlevel_cmd.parse_expr r))
   | _ -> failwith ("api: bad statement " ^ String.concat " " t)
 
@@ -292,7 +342,7 @@ let to_stmts (t : string list) : stmt list option =
     let l = parse_list vs in
     if List.for_all (fun x -> abs x <= 1000000) l && (l = [] || List.fold_left max min_int l - List.fold_left min max_int l <= 2000)
     then Some [SSet (zlist l)] else None
-  | ["new"; c] -> (try Some [SNew (Mlevel_cmd.parse_cons c)] with _ -> None)
+  | ["new"; c] -> (try (match Mlevel_cmd.parse_cons_opt c with Some c -> Some [SNew c] | None -> Some []) with _ -> None)
   | ["lin"; op; cs; xs; k] ->
     Some [SLin (Mlevel_cmd.cmp_of op, zlist (parse_list cs), List.map nat_of_int (vlist xs), z_of_int (int_of_string k))]
   | [("add" | "sub" | "mul") as f; a; b] when not (is_const a) && not (is_const b) ->
